@@ -44,8 +44,16 @@ def run(ctx, replay=None):
                           'use_nugget': rng.choice([False, True]), 'method': rng.choice(['trf', 'trf', 'trf', 'lm']), 'sigma': rng.choice(SIGMAS),
                           'n_lags': rng.randint(6, 14), 'maxlag': rng.choice([None, None, 'median', 0.8]),
                           'estimator': rng.choice(['matheron', 'matheron', 'cressie', 'dowd', 'genton']), 'remote': rng.random() < 0.3})
+            cases[-1]['on_the_fly'] = rng.random() < 0.25
+            cases[-1]['bin_func'] = rng.choice(['even', 'even', 'uniform', 'kmeans', 'sturges'])
             if cases[-1]['estimator'] == 'genton':
                 cases[-1]['remote'] = rng.random() < 0.8
+        if not replay:
+            # always part of a run: every named weighting with a maximum lag that ends below the largest distance
+            k0 = len(vc.corpus_cases('C05'))
+            for i_, (sg_, ml_) in enumerate([('exp', 'median'), ('linear', 0.8), ('sqrt', 'median'), ('sq', 0.8), ('exp', 0.8), ('array', 'median')]):
+                if k0 + i_ < len(cases):
+                    cases[k0 + i_].update(sigma=sg_, maxlag=ml_, method='trf', model=['spherical', 'exponential'][i_ % 2], estimator='matheron', remote=False, gap=False, on_the_fly=False)
         for case in cases:
             c, v = fc.field(random.Random(case['seed']), with_gap=case['gap'], n=(24 if case.get('estimator') == 'genton' else None))
             if case.get('remote'):
@@ -64,16 +72,27 @@ def run(ctx, replay=None):
                         pass
             mname = case['model']
             ctx.count('estimator', case.get('estimator', 'matheron'))
+            ctx.count('settings_passed_to_fit', bool(case.get('on_the_fly')))
             ctx.count('model', mname)
             ctx.count('method', case['method'])
             ctx.count('sigma', str(case['sigma']))
             spec = case['sigma']
             if spec == 'array':
                 spec = [0.5 + 0.25 * (i % 4) for i in range(case['n_lags'])]
-            kw = dict(model=mname, n_lags=case['n_lags'], use_nugget=case['use_nugget'], fit_sigma=spec, maxlag=case['maxlag'], fit_method=case['method'], estimator=case.get('estimator', 'matheron'))
+            kw = dict(model=mname, n_lags=case['n_lags'], use_nugget=case['use_nugget'], fit_sigma=spec, maxlag=case['maxlag'], fit_method=case['method'], estimator=case.get('estimator', 'matheron'),
+                      bin_func=case.get('bin_func', 'even'))
+            if spec is not None and isinstance(spec, list) and case.get('bin_func', 'even') == 'sturges':
+                kw['bin_func'] = 'even'          # an explicit weight array needs a known number of classes
+            ctx.count('bin_func', kw['bin_func'])
             with fc.FitRecorder() as rec:
                 try:
-                    V = Variogram(c, v, **kw)
+                    if case.get('on_the_fly'):
+                        # method and weights handed to fit() itself, on an instance built with other settings
+                        V = Variogram(c, v, **dict(kw, fit_sigma=None, fit_method=None))
+                        rec.calls.clear()
+                        V.fit(method=case['method'], sigma=spec)
+                    else:
+                        V = Variogram(c, v, **kw)
                     cof = np.asarray(V.cof, float)
                 except Exception as e:
                     exp0 = None
